@@ -571,7 +571,10 @@ fn u15_plan_existing(in_current_index: bool) {
 	let change: Operation<Key, RcValue> = Operation::Dereference(key);
 	let existing = Address::from_u64(kani::any());
 	let index: &IndexTable = if in_current_index { &tl.index } else { old_index };
-	let r = ok(col.write_plan_existing(&tl, &change, &mut *w, index, sub, existing));
+	let r2 = ok(col.write_plan_existing(&tl, &change, &mut *w, index, sub, existing));
+	// (second component: the address of a moved value the index had no room for; every index operation is accepted here)
+	assert!(!matches!(r2, Some((_, Some(_)))), "U15.plan_existing.nothing_left_unindexed_when_the_index_accepts");
+	let r = r2.map(|x| x.0);
 	let n = unsafe { IX_N };
 	match (r, unsafe { EXIST_OUT }) {
 		(None, _) => assert!(false, "U15.plan_existing.no_error"),
@@ -1274,12 +1277,12 @@ pub(crate) fn stub_search_all_indexes<'a>(key: &Key, tables: &'a Tables, _reinde
 	}
 }
 // HashColumn::write_plan_existing by contract (U15): the operation applied to the entry found
-pub(crate) fn stub_write_plan_existing(_c: &HashColumn, tables: &Tables, change: &Operation<Key, RcValue>, _log: &mut LogWriter, index: &IndexTable, sub_index: usize, existing_address: Address) -> Result<PlanOutcome> {
+pub(crate) fn stub_write_plan_existing(_c: &HashColumn, tables: &Tables, change: &Operation<Key, RcValue>, _log: &mut LogWriter, index: &IndexTable, sub_index: usize, existing_address: Address) -> Result<(PlanOutcome, Option<Address>)> {
 	unsafe {
 		WP_EXIST_N += 1;
 		WP_EXIST_OK = WP_EXIST_OK && change.key()[0] == WP_KEY0 && sub_index == 37 && existing_address.as_u64() == 0x4242 && index.id == tables.index.id;
 	}
-	Ok(wp_outcome())
+	Ok((wp_outcome(), None))
 }
 // HashColumn::write_plan_new by contract (U15): value stored and indexed in the current index
 pub(crate) fn stub_write_plan_new<'a, 'b>(
@@ -1430,3 +1433,57 @@ growth_harness!(#[kani::unwind(4)]
 	assert!(col.tables.read().index.id.index_bits() == 16 && col.reindex.read().queue.is_empty(), "U53.validate.rejected_record_leaves_the_index_as_it_was");
 	kani::cover!(r.is_none(), "reached");
 });
+
+// ================================================================== U54: an existing key whose value moves stays indexed when the index chunk is full
+// HashColumn::write_plan (real write_plan_existing inside) with the index operations, the value write and the growth trigger by
+// contract (the recorders of U15). When an overwrite moves the value to another slot (other size tier), the old slot is already
+// released and the new one written by the time the index is updated: if the current index answers "chunk full", the index must
+// grow until an insert of the new address is accepted -- otherwise a committed key becomes unreadable and its value an orphan.
+pub(crate) static mut SA_IN_CURRENT: bool = true;
+pub(crate) fn stub_search_all_found<'a>(_key: &Key, tables: &'a Tables, reindex: &'a Reindex, _log: &LogWriter) -> Result<Option<(&'a IndexTable, usize, Address)>> {
+	if unsafe { SA_IN_CURRENT } {
+		Ok(Some((&tables.index, 37, Address::from_u64(0x4242))))
+	} else {
+		match reindex.queue.front() {
+			Some(ReindexEntry::Index(t)) => Ok(Some((t, 37, Address::from_u64(0x4242)))),
+			_ => Ok(None),
+		}
+	}
+}
+fn u54_body(need: usize) {
+	let col: &'static HashColumn = Box::leak(Box::new(mk_growing_column(0)));
+	plan_reset(need);
+	unsafe {
+		EXIST_OUT = 2; // the value moved to NEW_ADDR
+		SA_IN_CURRENT = kani::any();
+	}
+	let key: Key = kani::any();
+	let overlays: &'static RwLock<crate::log::LogOverlays> = Box::leak(Box::new(RwLock::new(crate::log::LogOverlays::with_columns(0))));
+	let w: &'static mut crate::log::LogWriter<'static> = Box::leak(Box::new(crate::log::LogWriter::new(overlays, 7)));
+	let change: Operation<Key, RcValue> = Operation::Dereference(key);
+	let r = ok(col.write_plan(&change, &mut *w));
+	assert!(r.is_some(), "U54.write_plan.no_error");
+	let n = unsafe { IX_N };
+	// some insert of the key at the new address was accepted by an index
+	let mut accepted = false;
+	let mut i = 0;
+	while i < 6 {
+		if i < n && unsafe { IX_KIND[i] == 1 && IX_RET_WRITTEN[i] && IX_ADDR[i] == NEW_ADDR && IX_KEY0[i] == key[0] } {
+			accepted = true;
+		}
+		i += 1;
+	}
+	assert!(accepted, "U54.write_plan.moved_value_is_indexed_even_if_the_index_chunk_was_full");
+	if need > 0 {
+		assert!(unsafe { TRIG_N } >= 1, "U54.write_plan.a_full_index_grows");
+	}
+	kani::cover!(n >= 1, "reached");
+}
+macro_rules! moved_harness {
+	($name:ident, $need:expr) => {
+		plan_harness!(#[kani::unwind(8)] #[kani::stub(super::HashColumn::search_all_indexes, stub_search_all_found)] $name, u54_body($need));
+	};
+}
+moved_harness!(u54_moved_value_indexed_need0, 0);
+moved_harness!(u54_moved_value_indexed_need1, 1);
+moved_harness!(u54_moved_value_indexed_need2, 2);
